@@ -631,8 +631,21 @@ func (rule *RuleExpression) checkIfCondition(str *String, workflowKey string) {
 		}
 
 		p := NewExprParser()
-		expr, err := p.Parse(NewExprLexer(src))
+		l := NewExprLexer(src)
+		expr, err := p.Parse(l)
 		if err != nil {
+			rule.exprError(err, line, col)
+			return
+		}
+		if off := l.Offset() - 2; off < len(str.Value) {
+			// The lexer stopped at }} written in the condition itself, not at the one appended above
+			before := src[:off]
+			err := &ExprError{
+				Message: "unexpected \"}}\" in \"if\" condition. \"}}\" is only available to close ${{ }} placeholder",
+				Offset:  off,
+				Line:    strings.Count(before, "\n") + 1,
+				Column:  off - strings.LastIndexByte(before, '\n'),
+			}
 			rule.exprError(err, line, col)
 			return
 		}
